@@ -135,6 +135,20 @@ def run(ctx, rep):
     # skip_lock is set only for devices/smart-like operations and the test option
     sets = [i for i in m.all_insts() if i.op == 'store' and m.expr(i.ops[1]).endswith('opt.skip_lock') and m.const_of(i.ops[0]) == 1]
     rep.check(0 < len(sets) <= 3, 'R-C14-1', 'skip_lock set at %d sites (device commands, test option)' % len(sets), m.file, str([s.loc() for s in sets]), function='main', construct='skip_lock setters')
+    # which commands run without the lock: fold main with `operation` pinned to each command; a skip_lock store that is reachable for
+    # some commands only (not the test option, which is reachable for all) may be reachable only for the device-level commands
+    from .C12 import operation_values
+    from ..flags import pinned_reach, local_env
+    ovals = operation_values(P)
+    per_op = {}
+    for name, v in ovals.items():
+        reach, _ = pinned_reach(m, local_env(m, {'operation': v}))
+        per_op[name] = {x.id for x in sets if x.id in reach}
+    common = set.intersection(*per_op.values()) if per_op else set()
+    unlocked = sorted(n for n, ids in per_op.items() if ids - common)
+    allowed_unlocked = {'devices', 'smart'}
+    rep.check(bool(per_op) and set(unlocked) <= allowed_unlocked and len(unlocked) >= 1, 'R-C14-1', 'only the device-level commands (devices, smart) run without taking the lock', m.file,
+              'commands that skip the lock: %s' % unlocked, function='main', construct='commands without lock')
 
     # ---- R-C14-2 ordering on the sync path
     from .C12 import operation_values
